@@ -124,4 +124,37 @@ partial def solveLoop (w : Array Bool) (n : Nat) : Array Bool × Nat :=
 /-- the set of positions won for the pawn's side (index `idx`), and the number of sweeps -/
 def solve (_ : Unit) : Array Bool × Nat := solveLoop (Array.replicate (2 * 64 * 64 * 64) false) 0
 
+/-- like `sweep`, but records in `rk` the number of the sweep (from 1) in which a position became won; positions marked
+    in the same sweep as one of the successors they rely on are NOT accepted in that sweep (so ranks strictly decrease) -/
+def sweepRanked (rk : Array Nat) (n : Nat) : Array Nat × Bool := Id.run do
+  let mut w := rk
+  let mut changed := false
+  for stm in [0:2] do
+    for wk in [0:64] do
+      for wp in [8:56] do
+        for bk in [0:64] do
+          let q : Pos := { stm := stm, wk := wk, wp := wp, bk := bk }
+          let i := idx q
+          if rk.getD i 0 = 0 && legal q then
+            let won (s : Pos) : Bool := rk.getD (idx s) 0 ≠ 0      -- marked in an EARLIER sweep
+            if stm = 0 then
+              let (succ, promo) := whiteMoves q
+              if promo || succ.any (fun s => legal s && won s) then
+                w := w.set! i n
+                changed := true
+            else
+              let (succ, captures) := blackMoves q
+              let mated := succ.isEmpty && !captures && (pawnAttacks q.wp).contains q.bk
+              if mated || (!captures && !succ.isEmpty && succ.all won) then
+                w := w.set! i n
+                changed := true
+  return (w, changed)
+
+partial def rankLoop (rk : Array Nat) (n : Nat) : Array Nat :=
+  let (rk', ch) := sweepRanked rk n
+  if ch then rankLoop rk' (n + 1) else rk'
+
+/-- rank of every position: 0 = not won, otherwise the (Jacobi) sweep in which it became won -/
+def solveRanks (_ : Unit) : Array Nat := rankLoop (Array.replicate (2 * 64 * 64 * 64) 0) 1
+
 end Chess.Spec.KPK
